@@ -6,7 +6,8 @@
   `restrict env1 ty v`: the value `v` (of the newer schema) as the older schema sees it: message fields
   whose index the older schema does not know are dropped.
   `StructsStable`: the guard the byte-slice decoders need (a listed finding): the parent steps over a nested
-  STRUCT by `Size()` of what it understood, so a nested struct must not lose bytes by restriction.
+  STRUCT by `Size()` of what it understood, so the reader's `Size()` (`gsize env1`, which skips the fields
+  the reader marks deprecated) of what it decodes must equal the bytes the struct occupies on the wire.
 -/
 import Bebop.Wire
 
@@ -109,9 +110,11 @@ end
 
 mutual
 /-- Guard for the byte-slice decoders, for a value in NESTED position (reached through `dec … ty`):
-    every struct value at or below this position that the decoder reaches through `dec … (.ref n)` has the
-    same `Size()` before and after restriction (equivalently: no message field is dropped anywhere inside
-    such a struct). Nothing is required of messages and unions themselves. -/
+    for every struct value `s` at or below this position that the decoder reaches through `dec … (.ref n)`,
+    the reader's `Size()` of what it decodes equals the bytes on the wire:
+    `gsize env1 (.ref n) (restrict env1 (.ref n) s) = vsize s` (equivalently: inside such a struct no
+    message field is dropped by the reader, and none that is present is marked deprecated by the reader).
+    Nothing is required of messages and unions themselves. -/
 def StructsStable (env1 : Env) (ty : Ty) : Val → Prop
   | .scalar _ _ => True
   | .str _ => True
@@ -125,7 +128,7 @@ def StructsStable (env1 : Env) (ty : Ty) : Val → Prop
     | .map _ t => stableKVs env1 t kvs
     | _ => True
   | .struct fs =>
-    vsize (restrict env1 ty (.struct fs)) = vsize (.struct fs) ∧
+    gsize env1 ty (restrict env1 ty (.struct fs)) = vsize (.struct fs) ∧
     match ty with
     | .ref n =>
       match env1[n]? with
